@@ -16,6 +16,8 @@ import pipeline
 # free text of extractor issues -> stable codes (signatures must not contain packet/field names)
 ISSUE_CODES = [
     (r"pad (literal|argument).* not a (char|1-char)", "pad-literal-invalid"),
+    (r"imported and not used", "go-unused-import"),
+    (r"no method named put_", "rust-no-such-bufmut-method"),
     (r"checksum cast \((\w+)\) applied to boxed Integer", r"java-checksum-cast-\1"),
     (r"hashCode\(\).*calls itself", "java-hashcode-recursion"),
     (r"duplicate factory name", "factory-name-collision"),
@@ -29,7 +31,7 @@ ISSUE_CODES = [
     (r"constructor", "go-constructor-shape"),
     (r"decode type .* for member|put_\w+ of member|get_\w+ into member", "step-type-vs-member-type"),
     (r"Self \{ … \} lists", "rust-ctor-fields"),
-    (r"register.*not a class|not an emitted struct|undefined class|undeclared factory|undefined factor|undeclared helper", "reference-to-undeclared"),
+    (r"register.*not a class|not an emitted struct|undefined class|undeclared factory|undefined factor|undeclared helper|cannot find type|unresolved import", "reference-to-undeclared"),
     (r"length patch", "length-patch-shape"),
     (r"match arm", "rust-match-arm-shape"),
     (r"indent", "python-indentation"),
